@@ -220,6 +220,8 @@ def run_property(pid, tier, seed):
                 fam, sel = cond_info[idx]
                 vecs[idx] = [[False if t == 'bool' else 0 for _, t in fam.params],
                              [bool(k % 2) if t == 'bool' else (k % 3) for k, (_, t) in enumerate(fam.params)]]
+                if fam.pinned:
+                    vecs[idx] += [list(v) for v in fam.pinned(sel)]
             with ThreadPoolExecutor(nproc) as tpe:
                 futs = [(idx, v, tpe.submit(xh.replay_concrete, f'harness.{pid}', cond_info[idx][0].name, list(cond_info[idx][1]), v, REPO, 120))
                         for idx in sample_idx for v in vecs[idx]]
@@ -227,10 +229,18 @@ def run_property(pid, tier, seed):
                     rv, detail = f.result()
                     if rv in ('holds', 'rejected'):
                         cov['traces_validated_against_impl'] += 1 if rv == 'holds' else 0
+                    elif rv == 'fails':
+                        # the real code fails the harness body on a concrete input although the symbolic exploration confirmed the
+                        # condition: an engine blind spot (e.g. CrossHair bypasses functools.lru_cache, a shim hides a library effect).
+                        # The failure is real and reproducible, so it is reported as a violation with its replay file.
+                        fam, sel = cond_info[idx]
+                        log(f'ENGINE-BLINDSPOT property={pid} {fam.name}{sel}: confirmed symbolically, but the unshimmed concrete run on {v} fails')
+                        violations.append(dict(module=f'harness.{pid}', family=fam.name, sel=list(sel), args=v,
+                                               message='concrete validation run on the real code fails (the symbolic exploration had confirmed this condition: engine blind spot)',
+                                               detail=detail[:1500]))
                     else:
                         fam, sel = cond_info[idx]
-                        harness_errors.append(f'ENGINE-ARTEFACT: {fam.name}{sel} was confirmed symbolically for all inputs but the unshimmed concrete run on {v} '
-                                              f'{rv}: {detail[-300:]}')
+                        harness_errors.append(f'validation run of {fam.name}{sel} on {v} could not be evaluated: {rv} {detail[-300:]}')
 
         # -------------------------------------------------- other engines (E2 BMC / E3 lemmas), harness-specific
         if hasattr(h, 'extra'):
